@@ -266,6 +266,10 @@ pub fn generate(r: &mut Prng, seed: u64, run: u64) -> Scenario {
     let pa = *r.pick(&[PathKind::BinV3, PathKind::Text, PathKind::BinV3, PathKind::Builder, PathKind::BinLib]);
     let pb = if r.chance(2, 3) { pa } else { *r.pick(&[PathKind::BinV3, PathKind::Text, PathKind::Builder]) };
     let replicas = vec![ReplicaSpec::draw(r, pa), ReplicaSpec::draw(r, pb)];
+    let mut facts = facts;
+    if !replicas.iter().any(|x| x.uses_text()) && r.chance(1, 4) {
+        facts.pad_some_names(r);
+    }
     Scenario { prop: P.into(), seed, run, facts, replicas, edits, aux_seed: r.next_u64(), ..Default::default() }
 }
 
